@@ -48,9 +48,13 @@ class AppLab:
         a.dp = gen.rnd_port(rng) if dp is None else dp
         a.payload, a.transport, a.bare_ack = payload, transport, False
         if transport == "udp":
+            if sp is None and rng.random() < 0.04:
+                # the one source port in 65536 for which the checksum of this very datagram is transmitted as 0xFFFF
+                a.sp = pkt.udp_steer_sport(a.e.cip, a.e.sip, a.dp, payload)
             a.res = self.ctx.send(a.e.udp(a.sp, a.dp, payload))
             a.rep = app_payload(a.res)
             return a
+        a.sp = self.ctx.fresh_flow(a.e, a.sp, a.dp, fixed=sp is not None)
         f = Flow(self.ctx, a.e, a.sp, a.dp)
         if f.syn() is None:
             a.res, a.rep = None, None
@@ -67,13 +71,29 @@ class AppLab:
             a.rep = None
         return a
 
+    def dialogue(self, payloads, v6=None):
+        """Several requests, one segment each, on ONE validated connection, the client acknowledging every reply
+        (ack advances by the reply lengths) -> list of application payloads (None for bare ACK / silence), or None if
+        the handshake fails."""
+        rng = self.ctx.rng
+        e = gen.endp(rng, self.cfg, rng.random() < 0.5 if v6 is None else v6)
+        f = Flow.fresh(self.ctx, e)
+        if f.syn() is None:
+            return None
+        out = []
+        for p in payloads:
+            rep = app_payload(f.data(p))
+            out.append(rep if rep else None)
+        return out
+
     def ask_segments(self, payload, cuts, v6=None):
         """Deliver payload over a fresh validated TCP flow cut at the given positions; returns the list of
         application payloads (None for bare ACK / silence) per segment."""
         from .flow import cut
         rng = self.ctx.rng
         e = gen.endp(rng, self.cfg, rng.random() < 0.5 if v6 is None else v6)
-        f = Flow(self.ctx, e, gen.rnd_port(rng), gen.rnd_port(rng))
+        dp = gen.rnd_port(rng)
+        f = Flow(self.ctx, e, self.ctx.fresh_flow(e, gen.rnd_port(rng), dp), dp)
         if f.syn() is None:
             return None
         out = []
